@@ -592,7 +592,10 @@ def sbt_case(rng, name, k=0):
 def perturb_example(rng, name, strength=0.5):
     """Shipped example with a handful of economic / operating parameters redrawn (keeps the physics runnable)."""
     case, raw = example_case(name)
-    if rng.random() < strength:
+    # (not for SUTRA: the horizon of a SUTRA run is the one of the user's SUTRA output file; a lifetime that contradicts the
+    # file is an inconsistent input, not an accepted one - numpy broadcasting then mixes a 1-year discount vector with the
+    # file's 30 annual values)
+    if rng.random() < strength and not name.startswith('SUTRA'):
         cset(case, 'Plant Lifetime', draw_small_int(rng, 1, 50, heavy=(20, 25, 30)))
     if rng.random() < strength:
         cset(case, 'Construction Years', draw_small_int(rng, 1, 14, heavy=(1, 2, 3)))
